@@ -40,11 +40,19 @@ async def make_state(seed: str, length: int, want_running: int = 2, extra: int =
     await impl.start()
     g = e2.Gen(rng, impl, length)
     await g.boot()
+    # every call that touched the database, including dispatch attempts that found no job (they
+    # commit the scheduler's cache updates and so influence later dispatches)
+    g.ops_full = [t[0] for t in g.trace]
     limit = length + extra
     while len(g.trace) < limit:
         if len(g.trace) >= length and len(g.running()) >= want_running:
             break
-        await _gen_step(g)
+        n0 = len(g.trace)
+        name = await _gen_step(g)
+        new = [t[0] for t in g.trace[n0:]]
+        if name == "dispatch" and not new:
+            g.ops_full.append(("dispatch_none",))
+        g.ops_full += new
     return impl, g
 
 
@@ -73,6 +81,7 @@ async def _gen_step(g):
     name, _, args = rng.choices(cats, weights=[c[1] for c in cats])[0]
     c = (name, *rng.choice(args))
     await getattr(g, "g_" + c[0])(*c[1:])
+    return name
 
 
 async def rebuild_state(ops):
@@ -82,6 +91,12 @@ async def rebuild_state(ops):
     first = True
     for op in ops:
         if op[0] == "dispatch_error":
+            await impl.dispatch()
+            continue
+        if op[0] == "dispatch_none":
+            r = await impl.dispatch()
+            if r is not None:
+                raise RuntimeError(f"replay diverged at dispatch: wanted no job, got {r}")
             continue
         if op[0] == "dispatch":
             r = await impl.dispatch()
